@@ -31,7 +31,102 @@ pub struct W2Prog {
     pub lines: u64,
 }
 
+impl W2Prog {
+    // Serialise the model so that a replay file does not depend on the
+    // generator version that produced it.
+    pub fn to_json(&self) -> J {
+        json!({
+            "text_hex": crate::plan::hex(&self.text),
+            "events": self.events.iter().map(|e| json!({
+                "text": e.text, "end": e.end, "node": e.node, "func": e.func,
+                "chain": e.chain.iter().map(|(n, c)| json!([n, c])).collect::<Vec<_>>(),
+                "chain_in_slot": e.chain_in_slot, "in_interp": e.in_interp, "top_stmt": e.top_stmt,
+                "loop_iter": e.loop_iter, "via_return": e.via_return,
+            })).collect::<Vec<_>>(),
+            "calls": self.calls.iter().map(|e| json!({
+                "node": e.node, "off": e.off, "func": e.func,
+                "chain": e.chain.iter().map(|(n, c)| json!([n, c])).collect::<Vec<_>>(),
+                "chain_in_slot": e.chain_in_slot, "in_interp": e.in_interp, "via_return": e.via_return,
+            })).collect::<Vec<_>>(),
+            "pos": self.pos.iter().map(|p| p.map(|(l, c)| json!([l, c])).unwrap_or(J::Null)).collect::<Vec<_>>(),
+            "tok_off": self.tok_off,
+            "feats": self.feats,
+            "site": self.site,
+            "spaces": self.spaces.iter().map(|s| json!([s.off, s.line, s.col, s.after_first_print, s.top_stmt])).collect::<Vec<_>>(),
+            "n_stmts": self.n_stmts, "top_ids": self.top_ids, "lines": self.lines,
+        })
+    }
+
+    pub fn from_json(j: &J) -> Option<W2Prog> {
+        let chain_of = |v: &J| -> Vec<(usize, String)> {
+            v.as_array().map(|a| a.iter().filter_map(|x| Some((x.get(0)?.as_u64()? as usize, x.get(1)?.as_str()?.to_string()))).collect()).unwrap_or_default()
+        };
+        let bools = |v: &J| -> Vec<bool> { v.as_array().map(|a| a.iter().filter_map(J::as_bool).collect()).unwrap_or_default() };
+        let ostr = |v: &J| -> Option<String> { v.as_str().map(str::to_string) };
+        let text = crate::plan::unhex(j.get("text_hex")?.as_str()?)?;
+        let mut events = vec![];
+        for e in j.get("events")?.as_array()? {
+            events.push(PrintEvent {
+                text: e.get("text")?.as_str()?.to_string(),
+                end: e.get("end")?.as_u64()?,
+                node: e.get("node")?.as_u64()? as usize,
+                func: ostr(e.get("func")?),
+                chain: chain_of(e.get("chain")?),
+                chain_in_slot: bools(e.get("chain_in_slot")?),
+                in_interp: e.get("in_interp")?.as_bool()?,
+                top_stmt: e.get("top_stmt")?.as_u64()? as usize,
+                loop_iter: e.get("loop_iter")?.as_bool()?,
+                via_return: e.get("via_return")?.as_bool()?,
+            });
+        }
+        let mut calls = vec![];
+        for e in j.get("calls")?.as_array()? {
+            calls.push(CallEvent {
+                node: e.get("node")?.as_u64()? as usize,
+                off: e.get("off")?.as_u64()?,
+                func: ostr(e.get("func")?),
+                chain: chain_of(e.get("chain")?),
+                chain_in_slot: bools(e.get("chain_in_slot")?),
+                in_interp: e.get("in_interp")?.as_bool()?,
+                via_return: e.get("via_return")?.as_bool()?,
+            });
+        }
+        let pos = j.get("pos")?.as_array()?.iter().map(|p| Some((p.get(0)?.as_u64()?, p.get(1)?.as_u64()?))).collect();
+        let tok_off = j.get("tok_off")?.as_array()?.iter().map(J::as_u64).collect();
+        let feats = j.get("feats")?.as_array()?.iter().map(|f| f.as_array().map(|a| a.iter().filter_map(|x| x.as_str().map(str::to_string)).collect()).unwrap_or_default()).collect();
+        let site = j.get("site")?.as_array()?.iter().filter_map(|x| x.as_str().map(str::to_string)).collect();
+        let mut spaces = vec![];
+        for s in j.get("spaces")?.as_array()? {
+            spaces.push(Space { off: s.get(0)?.as_u64()?, line: s.get(1)?.as_u64()?, col: s.get(2)?.as_u64()?, after_first_print: s.get(3)?.as_bool()?, top_stmt: s.get(4)?.as_u64()? as usize });
+        }
+        let mut stdout = vec![];
+        for e in &events {
+            stdout.extend_from_slice(e.text.as_bytes());
+        }
+        Some(W2Prog {
+            text,
+            events,
+            stdout,
+            pos,
+            tok_off,
+            calls,
+            feats,
+            site,
+            spaces,
+            n_stmts: j.get("n_stmts")?.as_u64()? as usize,
+            top_ids: j.get("top_ids")?.as_array()?.iter().filter_map(|x| x.as_u64().map(|v| v as usize)).collect(),
+            overflow: false,
+            lines: j.get("lines")?.as_u64()?,
+        })
+    }
+}
+
 pub fn build(aux: &J) -> W2Prog {
+    if let Some(m) = aux.get("model") {
+        if let Some(p) = W2Prog::from_json(m) {
+            return p;
+        }
+    }
     let seed = aux.get("w2_seed").and_then(J::as_u64).unwrap_or(1);
     let lseed = aux.get("layout_seed").and_then(J::as_u64).unwrap_or(1);
     let layout_on = aux.get("layout").and_then(J::as_bool).unwrap_or(false);
@@ -117,7 +212,16 @@ pub fn pick(rng: &mut Rng, opts: &GenOpts) -> Picked {
 // IR-level shrinking: remove one statement at a time (top-level first); the
 // model and the text are recomputed from the shrunk IR.
 pub fn shrink_cases(case: &Case) -> Vec<Case> {
+    let mut case = case.clone();
+    if let Some(o) = case.aux.as_object_mut() {
+        o.remove("model");
+    }
+    let case = &case;
     let base = build(&case.aux);
+    if base.text != case.program {
+        // the generator changed since this case was recorded: nothing to shrink with
+        return vec![];
+    }
     let removed: Vec<u64> = case.aux.get("removed").and_then(J::as_array).map(|a| a.iter().filter_map(J::as_u64).collect()).unwrap_or_default();
     let mut order: Vec<usize> = base.top_ids.iter().rev().copied().collect();
     for id in (1..=base.n_stmts).rev() {
